@@ -29,6 +29,9 @@ struct Input {
     declared: usize,
     server_fault: Option<NetFault>,
     source_hint: Vec<u8>,
+    /// declares a stored chunk size that a local reader would legitimately allocate and fill
+    /// (hundreds of MiB to 4 GiB): only given to the HTTP reader, which buffers what arrives
+    http_only: bool,
 }
 
 fn rebuild(dict: &RefDict, data: &[u8], cdo_override: Option<u64>, dict_bytes_override: Option<Vec<u8>>) -> Vec<u8> {
@@ -61,11 +64,11 @@ fn gen_input() -> Input {
             if gen::chance(1, 2) && n >= 6 {
                 b[..6].copy_from_slice(MAGIC);
             }
-            Input { bytes: b, what: format!("random-bytes:{}", n), declared: 0, server_fault: None, source_hint: data }
+            Input { bytes: b, what: format!("random-bytes:{}", n), declared: 0, server_fault: None, source_hint: data, http_only: false }
         }
         1 => {
             let n = gen::draw(base.len() as u32 + 1) as usize;
-            Input { bytes: base[..n].to_vec(), what: "prefix-of-valid-archive".into(), declared: declared0, server_fault: None, source_hint: data }
+            Input { bytes: base[..n].to_vec(), what: "prefix-of-valid-archive".into(), declared: declared0, server_fault: None, source_hint: data, http_only: false }
         }
         2 if gen::chance(1, 4) => {
             // the dictionary size field (not covered by any checksum when it is read) set to
@@ -77,7 +80,7 @@ fn gen_input() -> Input {
             });
             let v = if gen::chance(1, 6) { real + 1 } else if gen::chance(1, 6) { real.saturating_sub(1) } else { v };
             b[6..14].copy_from_slice(&v.to_le_bytes());
-            Input { bytes: b, what: "dictionary-size-extreme".into(), declared: declared0, server_fault: None, source_hint: data }
+            Input { bytes: b, what: "dictionary-size-extreme".into(), declared: declared0, server_fault: None, source_hint: data, http_only: false }
         }
         2 => {
             let mut b = base.clone();
@@ -85,12 +88,13 @@ fn gen_input() -> Input {
             let bit = gen::draw(8);
             b[byte] ^= 1 << bit;
             let region = if (6..14).contains(&byte) { "dictionary-size" } else if byte < enc.header_len { "header" } else { "payload" };
-            Input { bytes: b, what: format!("bit-flip:{}", region), declared: declared0, server_fault: None, source_hint: data }
+            Input { bytes: b, what: format!("bit-flip:{}", region), declared: declared0, server_fault: None, source_hint: data, http_only: false }
         }
         3 => {
             let mut d = enc.dict.clone();
             let mut cdo: Option<u64> = None; // None = right behind the new header
             let mut names: Vec<String> = Vec::new();
+            let mut http_only = false;
             let mut data_region = chunk_data.clone();
             let mut dict_override: Option<Vec<u8>> = None;
             let n_mut = 1 + gen::t(|t| t.weighted(&[6, 2, 1]));
@@ -125,7 +129,10 @@ fn gen_input() -> Input {
                     }
                     3 => {
                         let i = pick_desc(&mut d).unwrap();
-                        d.descriptors[i].archive_size = *gen::t(|t| t.pick(&[0u32, 1, MAX_DECLARED, 70000]));
+                        d.descriptors[i].archive_size = *gen::t(|t| t.pick(&[0u32, 1, MAX_DECLARED, 70000, 0, 1, (64 << 20) + 1, 1 << 30, u32::MAX]));
+                        if d.descriptors[i].archive_size > MAX_DECLARED {
+                            http_only = true;
+                        }
                         names.push(format!("archive-size:{}", d.descriptors[i].archive_size));
                     }
                     4 => {
@@ -271,7 +278,7 @@ fn gen_input() -> Input {
             let bytes = rebuild(&d, &data_region, cdo, dict_override);
             names.sort();
             names.dedup();
-            Input { bytes, what: format!("field:{}", names.join("+")), declared, server_fault: None, source_hint: data }
+            Input { bytes, what: format!("field:{}", names.join("+")), declared, server_fault: None, source_hint: data, http_only }
         }
         _ => {
             let fault = gen::t(|t| match t.draw(12) {
@@ -287,14 +294,14 @@ fn gen_input() -> Input {
                 4 => NetFault::IgnoreRange,
                 _ => NetFault::Extra(100 << 20),
             });
-            Input { bytes: base, what: format!("server:{:?}", fault).split('(').next().unwrap().to_string() + &format!("{:?}", fault).replace(|c: char| c.is_ascii_digit(), ""), declared: declared0, server_fault: Some(fault), source_hint: data }
+            Input { bytes: base, what: format!("server:{:?}", fault).split('(').next().unwrap().to_string() + &format!("{:?}", fault).replace(|c: char| c.is_ascii_digit(), ""), declared: declared0, server_fault: Some(fault), source_hint: data, http_only: false }
         }
     }
 }
 
 pub fn run(ctx: &mut Ctx) {
     let inp = gen_input();
-    let http = inp.server_fault.is_some() || gen::chance(1, 3);
+    let http = inp.server_fault.is_some() || gen::chance(1, 3) || inp.http_only;
     let limit = (64usize << 20).saturating_add(inp.declared.saturating_mul(4));
     let ops: Vec<&str> = match gen::draw(4) {
         0 => vec!["info", "clone"],
